@@ -1,6 +1,77 @@
-(* C16 — property theorems (statements only; proofs live in Acme.C16.Proofs). *)
+(* C16 — Human-readable exports succeed and list every entity.
+   Statements only; proofs live in Acme.C16.Proofs.  [md] is the model of ExportToMarkdown
+   (Acme.C16.Model), [blocks n] its block list; String() renderings are modelled only as total
+   and are exercised by the run (props/C16). *)
 From Coq Require Import ZArith List String.
-From Acme.C16 Require Import Model.
-Theorem md_stub : forall n, blocks n = blocks n.
-Proof. reflexivity. Qed.
-Print Assumptions md_stub.
+From Acme.C16 Require Import Model Spec Proofs.
+Import ListNotations.
+
+(* The export never fails — for every network tree, well-formed or not. *)
+Theorem md_ok : forall n, is_ok (md n) = true.
+Proof. exact md_ok_lemma. Qed.
+Print Assumptions md_ok.
+
+(* ... and its result is the block list [blocks n]. *)
+Theorem md_result : forall n, md n = Ok (blocks n).
+Proof. exact md_is_blocks. Qed.
+Print Assumptions md_result.
+
+(* One level-1 heading (the network), one level-2 heading per bus followed by the three
+   appendices, one level-3 heading per node interface, one level-4 heading per message (then
+   one per listed enum), all in the order of the tree. *)
+Theorem md_sections : forall n,
+  headings 1 (blocks n) = [nt_name n]
+  /\ headings 2 (blocks n) = map b_name (nt_buses n) ++ appendix_titles
+  /\ headings 3 (blocks n) = map n_name (flat_map b_nifs (nt_buses n))
+  /\ headings 4 (blocks n) = map m_name (msgs_of_net n) ++ map se_name (enums_listed n).
+Proof. exact md_sections_lemma. Qed.
+Print Assumptions md_sections.
+
+(* Every row of every table is as wide as the table's header. *)
+Theorem md_rows_width : forall n bs h rows,
+  md n = Ok bs -> In (Table h rows) bs ->
+  Forall (fun r => List.length r = List.length h) rows.
+Proof. exact md_rows_width_lemma. Qed.
+Print Assumptions md_rows_width.
+
+(* Every message's section is a contiguous segment of the document; it holds exactly one table
+   when the message has signals (none otherwise), and that table has one row per signal
+   occurrence — every signal at every multiplexing depth, once in each group section it belongs
+   to, group sections opened by a marker row — starting with name, start bit and size. *)
+Theorem md_signal_rows : forall n m, In m (msgs_of_net n) ->
+  seg (blocks n) (msg_blocks m)
+  /\ tables (msg_blocks m) =
+       match m_sigs m with [] => [] | _ => [Table sig_header (rows_sigs 0 (m_sigs m))] end
+  /\ Forall2 row_matches (rows_sigs 0 (m_sigs m)) (occs 0 (m_sigs m)).
+Proof. exact md_signal_rows_lemma. Qed.
+Print Assumptions md_signal_rows.
+
+(* The document ends with the appendices; their tables list exactly the referenced types, units
+   and enums, each once. *)
+Theorem md_appendix_exact : forall n, well_formed n ->
+  (exists pre, blocks n = pre ++ appendix_blocks n)
+  /\ tables (appendix_blocks n) =
+       Table type_header (map type_row (types_listed n))
+       :: Table unit_header (map unit_row (units_listed n))
+       :: map (fun e => Table value_header (map value_row (se_values e))) (enums_listed n)
+  /\ headings 4 (appendix_blocks n) = map se_name (enums_listed n)
+  /\ lists_exactly st_id (types_listed n) (all_types n)
+  /\ lists_exactly su_id (units_listed n) (all_units n)
+  /\ lists_exactly se_id (enums_listed n) (all_enums n).
+Proof. exact md_appendix_exact_lemma. Qed.
+Print Assumptions md_appendix_exact.
+
+(* Without the hypothesis (two different definitions carrying one id) the lists are still
+   duplicate-free, contain only referenced definitions and cover every referenced id. *)
+Theorem md_appendix_sound : forall n,
+  NoDup (map st_id (types_listed n))
+  /\ (forall a, In a (types_listed n) -> In a (all_types n))
+  /\ (forall a, In a (all_types n) -> exists a', In a' (types_listed n) /\ st_id a' = st_id a).
+Proof. exact md_appendix_sound_lemma. Qed.
+Print Assumptions md_appendix_sound.
+
+(* The hypothesis of md_appendix_exact is satisfiable by a non-trivial network (nested
+   multiplexers, a signal shared by two groups, an empty group, a message without signals). *)
+Theorem well_formed_example : well_formed ex_net.
+Proof. exact ex_net_wf. Qed.
+Print Assumptions well_formed_example.
